@@ -9,8 +9,8 @@ c = Check('C15')
 # ---- E2: stream identity from an arbitrary prior static state (CBMC, z3 back end)
 src = os.path.join(build.VERIF, 'cbmc', 'c15_stream.c')
 has_flip = 'flip_bitpos' in open(build.REPO + '/src/cmb_random.c').read()
-e2.run_harness(c, c.d, 'stream-identity-K3', src, ['K=3'] + (['HAVE_FLIP_STATICS=1'] if has_flip else []), unwind=21, backend=('--z3',), timeout=600, link_lib=True,
-               extra_src=[])
+build.codegen(c.d); build.native_lib(c.d, san=True)
+e2h = e2.spawn(c.d, [dict(title='stream-identity-K3', src=src, defs=['K=3'] + (['HAVE_FLIP_STATICS=1'] if has_flip else []), unwind=21, backend=('--z3',), timeout=600, link_lib=True)])
 # ---- H4: every mutable static of the generator unit is thread-local (syntactic, on freshly emitted IR)
 import irparse
 lib = build.lib_ir(c.d)
@@ -40,6 +40,7 @@ c.run_e1(fams, assumptions=['E2: all 2^64 seeds and all prior values of prng_sta
                             'E1: symbolic seed and prior seed; prior histories = raw draws, 1/22/43 flips, flips on the never-seeded generator, terminate; call sequences restricted to samplers without data-dependent branches (raw, flip, cmb_random, uniform, bernoulli)',
                             'libm functions are uninterpreted deterministic functions', 'hardware seeding (cmb_random_hwseed) and statistical quality are outside'],
          bounds=['K = 3 (E2) / 4 (E1, thorough 16) raw outputs after seeding; 20 warm-up rounds fully unwound'])
+e2.collect(c, e2h)
 c.finish(functions=['cmb_random_initialize', 'splitmix64', 'cmb_random_sfc64', 'cmb_random_flip', 'cmb_random_terminate', 'cmb_random (header)', 'cmb_random_uniform', 'cmb_random_bernoulli'],
          trusted=['cbmc 6.11 + z3 4.8 back end', 'independent reference implementation of splitmix64/sfc64 in the harness', 'E1 interpreter', 'z3 5.1'],
          explanation='equivalence with a reference generator for every seed and prior state (SMT), plus self-composition of seeded call sequences after different prior histories')
